@@ -793,10 +793,12 @@ Proof. exact translated_flatten_threads_memory. Qed.
 (* END TO END for quantifier-free arithmetic comparisons over declared
    integer variables and numerals (Leaf.qexp: numerals, variables, X / ',
    + - * / %): no hypothesis on any flatten function is left.  t = the symbol
-   table passed as t=...; [no_defs]: no name has a definition in the
-   dictionary passed as defs=... -- this covers the library's own call
-   (bitblast passes defs = {} or the registered operators, never None) as
-   well as defs=None; [env n p] = the integer
+   table passed as t=...; [nodef_on kw names]: the variable names that OCCUR
+   in the two terms have no definition in the dictionary passed as defs=...
+   (Var.flatten only tests the name it flattens, so the dictionary may define
+   other operators: this covers bitblast's defs = {} and a context with
+   registered operators that the formula does not mention, as well as
+   defs=None); [env n p] = the integer
    value of variable n (primed if p); the bit assignment [vars] encodes env
    ([encodes]: the bits that the table assigns to each variable evaluate, in
    two's complement, to its value).  If neither side divides by zero, the
@@ -805,7 +807,7 @@ Proof. exact translated_flatten_threads_memory. Qed.
 Theorem C06_translated_flatten_end_to_end :
   forall (defs : Type) defs_mem var_id ext_flatten def_flatten vars t env
          op l r la ra fuel kw res st vl vr,
-  k_t kw = Some t -> no_defs defs defs_mem kw ->
+  k_t kw = Some t -> nodef_on defs defs_mem kw (qnames l ++ qnames r) ->
   encodes var_id vars t env ->
   q_anode var_id t (py_truth (k_prime kw)) l = Some la ->
   q_anode var_id t (py_truth (k_prime kw)) r = Some ra ->
@@ -834,7 +836,7 @@ Corollary C06_translated_flatten_end_to_end_defs_none :
 Proof.
   intros defs defs_mem var_id ext_flatten def_flatten vars t env op l r la ra fuel kw
     res st vl vr Ht Hd. apply translated_flatten_end_to_end; [exact Ht|].
-  now apply no_defs_none.
+  now apply no_defs_on, no_defs_none.
 Qed.
 
 (* non-vacuity: x in -2..1 (signed, bits x_0 x_1), y in 0..3 (bits y_0 y_1,
@@ -844,10 +846,13 @@ Qed.
 Definition ex_t : PyStr.table :=
   [("x"%string, mkHint "int" (Some ["x_0"; "x_1"]%string) (Some true) (Some (-2, 1)));
    ("y"%string, mkHint "int" (Some ["y_0"; "y_1"]%string) (Some false) (Some (0, 3)))].
+Fixpoint ex_idx (s : string) (l : list string) (k : nat) : nat :=
+  match l with [] => k | x :: r => if String.eqb s x then k else ex_idx s r (S k) end.
+(* an injective numbering of the bit names *)
 Definition ex_id (s : string) : nat :=
-  if String.eqb s "x_0'" then 0 else if String.eqb s "x_1'" then 1
-  else if String.eqb s "y_0" then 2 else if String.eqb s "y_1" then 3 else 9.
-Definition ex_vars (v : nat) : bool := Nat.eqb v 1 || Nat.eqb v 2.
+  ex_idx s ["x_0"; "x_1"; "y_0"; "y_1"; "x_0'"; "x_1'"; "y_0'"; "y_1'"]%string 0.
+(* x = 0, y = 1, x' = -2, y' = 0 *)
+Definition ex_vars (v : nat) : bool := Nat.eqb v 5 || Nat.eqb v 2.
 Definition ex_env (n : string) (p : bool) : Z :=
   if String.eqb n "x" then (if p then -2 else 0) else (if p then 0 else 1).
 Definition ex_l : qexp :=
@@ -861,7 +866,7 @@ Example C06_end_to_end_nonvacuous :
   (exists buf, g_flatten unit (fun _ _ => false) ex_id (fun _ _ _ => None) (fun _ _ _ => None) 60
      (PNode "Comparator" "<=" [qnode ex_l; qnode ex_r]) None ex_kw = Some (RBuf buf, None) /\
      buf_value ex_vars buf = Some true) /\
-  sval (map (evalx ex_vars []) [XV 0; XV 1]) = ex_env "x" true /\
+  sval (map (evalx ex_vars []) [XV 4; XV 5]) = ex_env "x" true /\
   sval (map (evalx ex_vars []) [XV 2; XV 3; XC false]) = ex_env "y" false.
 Proof.
   split; [|split; [|split; [|split; [|split]]]].
@@ -907,7 +912,7 @@ Qed.
 Theorem C06_translated_formula_end_to_end :
   forall (defs : Type) defs_mem var_id ext_flatten def_flatten vars t env benv
          e fuel kw r st v,
-  k_t kw = Some t -> no_defs defs defs_mem kw -> py_truth (k_prime kw) = false ->
+  k_t kw = Some t -> nodef_on defs defs_mem kw (bnames e) -> py_truth (k_prime kw) = false ->
   encodes var_id vars t env -> encodes_bool var_id vars t benv -> bwf var_id t e ->
   bsem env benv e = Some v ->
   g_flatten defs defs_mem var_id ext_flatten def_flatten fuel (bnode e) None kw = Some (r, st) ->
@@ -924,7 +929,7 @@ Corollary C06_translated_formula_end_to_end_defs_none :
   st = None /\ exists p, px_of_fres r = Some p /\ eval_px vars p = Some v.
 Proof.
   intros defs defs_mem var_id ext_flatten def_flatten vars t env benv e fuel kw r st v Ht Hd.
-  apply translated_formula_end_to_end; [exact Ht|]. now apply no_defs_none.
+  apply translated_formula_end_to_end; [exact Ht|]. now apply no_defs_on, no_defs_none.
 Qed.
 
 (* ============== the translated flatten does not raise on the fragments == *)
@@ -933,7 +938,8 @@ Qed.
    declared in t with well-formed hints ([q_anode] = Some), whose widths stay
    within the 32-bit limit at every arithmetic node ([aok]: the guard of
    flatten_arithmetic = the acceptance condition of Expr.c_arith) and every
-   fuel above depth + 33; for comparisons of two such terms ([cmp_guard]);
+   fuel with depth + 33 < fuel (terms; depth + 34 < fuel for comparisons
+   and formulas); for comparisons of two such terms ([cmp_guard]);
    and for formulas of Leaf.bexp ([bok]).  Includes the self-check
    x == twos_complement_to_int(bits) of int_to_twos_complement. *)
 From OmegaGP Require Import BitvectorSuccess.
@@ -942,13 +948,14 @@ Theorem C06_translated_flatten_succeeds :
   forall (defs : Type) defs_mem var_id ext_flatten def_flatten t,
   let flat := g_flatten defs defs_mem var_id ext_flatten def_flatten in
   (forall s z, py_int s = Some z -> g_int_to_twos_complement s = Some (num_names z)) /\
-  (forall e kw a mem fuel, k_t kw = Some t -> no_defs defs defs_mem kw ->
+  (forall e kw a mem fuel, k_t kw = Some t -> nodef_on defs defs_mem kw (qnames e) ->
      q_anode var_id t (py_truth (k_prime kw)) e = Some a ->
      aok a mem = true -> (qdepth e + 33 < fuel)%nat ->
      flat fuel (qnode e) (Some mem) kw
      = Some (RBits (fst (d_aflat a mem)), Some (snd (d_aflat a mem)))) /\
   (forall op o l r la ra kw fuel,
-     k_t kw = Some t -> no_defs defs defs_mem kw -> cmp_of_string op = Some o ->
+     k_t kw = Some t -> nodef_on defs defs_mem kw (qnames l ++ qnames r) ->
+     cmp_of_string op = Some o ->
      q_anode var_id t (py_truth (k_prime kw)) l = Some la ->
      q_anode var_id t (py_truth (k_prime kw)) r = Some ra ->
      aok la [] = true -> aok ra (snd (d_aflat la [])) = true ->
@@ -956,7 +963,7 @@ Theorem C06_translated_flatten_succeeds :
      (Nat.max (qdepth l) (qdepth r) + 34 < fuel)%nat ->
      flat fuel (PNode "Comparator" op [qnode l; qnode r]) None kw
      = Some (RBuf (FBuf (py_len (d_cmp_flat o la ra)) (d_cmp_flat o la ra)), None)) /\
-  (forall e kw fuel, k_t kw = Some t -> no_defs defs defs_mem kw ->
+  (forall e kw fuel, k_t kw = Some t -> nodef_on defs defs_mem kw (bnames e) ->
      py_truth (k_prime kw) = false -> bok var_id t e -> (bdepth e + 34 < fuel)%nat ->
      exists r p, flat fuel (bnode e) None kw = Some (r, None) /\ px_of_fres r = Some p).
 Proof.
@@ -971,7 +978,8 @@ Qed.
 Theorem C06_translated_comparison_total :
   forall (defs : Type) defs_mem var_id ext_flatten def_flatten t vars env
          op o l r la ra kw fuel vl vr,
-  k_t kw = Some t -> no_defs defs defs_mem kw -> cmp_of_string op = Some o ->
+  k_t kw = Some t -> nodef_on defs defs_mem kw (qnames l ++ qnames r) ->
+  cmp_of_string op = Some o ->
   q_anode var_id t (py_truth (k_prime kw)) l = Some la ->
   q_anode var_id t (py_truth (k_prime kw)) r = Some ra ->
   aok la [] = true -> aok ra (snd (d_aflat la [])) = true ->
@@ -989,7 +997,7 @@ Proof. exact translated_comparison_total. Qed.
 Theorem C06_translated_formula_total :
   forall (defs : Type) defs_mem var_id ext_flatten def_flatten t vars env benv
          e kw fuel v,
-  k_t kw = Some t -> no_defs defs defs_mem kw -> py_truth (k_prime kw) = false ->
+  k_t kw = Some t -> nodef_on defs defs_mem kw (bnames e) -> py_truth (k_prime kw) = false ->
   bok var_id t e -> (bdepth e + 34 < fuel)%nat ->
   encodes var_id vars t env -> encodes_bool var_id vars t benv ->
   bsem env benv e = Some v ->
@@ -997,44 +1005,159 @@ Theorem C06_translated_formula_total :
               = Some (r, None) /\ px_of_fres r = Some p /\ eval_px vars p = Some v.
 Proof. exact translated_formula_total. Qed.
 
-(* non-vacuity with the entry shape of the library: defs = {} (Some []), the
-   divider path ( / and % ), the hypotheses of the TOTAL theorems checked by
-   computation and the theorem applied:
-     (y + 3) / x' <= 7 % 4      at x' = -2, y = 1:  -2 <= 3 *)
+(* non-vacuity with the entry shape of the library: defs is a dictionary that
+   defines an operator "Foo" which the formula does not mention; the divider
+   path ( / and % ); ALL hypotheses of C06_translated_comparison_total are
+   established (the guards by computation, [encodes] for every name) and the
+   theorem is APPLIED, for two comparators with different outcomes:
+     (y + 3) / x' <= 7 % 4   and   (y + 3) / x' = 7 % 4
+   at x' = -2, y = 1:  -2 <= 3 holds, -2 = 3 does not *)
 Definition ex_defs_mem (d : list string) (n : string) : bool := existsb (String.eqb n) d.
-Definition ex_kw0 : kwargs (list string) := mkKw None (Some ex_t) (Some []).
+Definition ex_kw0 : kwargs (list string) := mkKw None (Some ex_t) (Some ["Foo"%string]).
 Definition ex_l2 : qexp :=
   QArith ADiv "/" (QArith AAdd "+" (QVar "y") (QNum "3")) (QPrime "'" (QVar "x")).
 Definition ex_r2 : qexp := QArith AMod "%" (QNum "7") (QNum "4").
-
 Definition ex_anode (e : qexp) : anode :=
   match q_anode ex_id ex_t false e with Some a => a | None => ALeaf (PNode "" "" []) [] end.
 
+(* the assignment encodes the integer values of EVERY variable of the table *)
+Ltac enc_key name prime H k :=
+  destruct (String.eqb_spec name k) as [->|?];
+  [destruct prime; vm_compute in H; first [discriminate | injection H as <-; vm_compute; reflexivity]|].
+Ltac enc_simpl name H :=
+  unfold option_map in H; cbn in H;
+  repeat match goal with N : String.eqb name _ = false |- _ => progress (rewrite N in H) end;
+  cbn in H.
+Ltac enc_rsplit name H k :=
+  destruct (String.eqb (py_rsplit1 "_" name) k);
+  [enc_simpl name H;
+   repeat (match type of H with
+           | context [if ?c then _ else _] => destruct c
+           | context [match ?c with _ => _ end] => destruct c
+           end; enc_simpl name H);
+   discriminate|].
+
+Example C06_ex_encodes : encodes ex_id ex_vars ex_t ex_env.
+Proof.
+  intros name prime bits H.
+  enc_key name prime H "x"%string. enc_key name prime H "y"%string.
+  unfold d_var_flatten, is_bool_var in H. cbn [ex_t dict_get] in H.
+  repeat match goal with N : name <> _ |- _ => apply String.eqb_neq in N; rewrite N in H end.
+  enc_rsplit name H "x"%string. enc_rsplit name H "y"%string. discriminate.
+Qed.
+
 Example C06_total_nonvacuous :
-  no_defs (list string) ex_defs_mem ex_kw0 /\
-  (let la := ex_anode ex_l2 in let ra := ex_anode ex_r2 in
-   q_anode ex_id ex_t false ex_l2 = Some la /\ q_anode ex_id ex_t false ex_r2 = Some ra /\
-   aok la [] = true /\ aok ra (snd (d_aflat la [])) = true /\
-   cmp_guard (fst (d_aflat la [])) (fst (d_aflat ra (snd (d_aflat la [])))) = true) /\
+  ~ no_defs (list string) ex_defs_mem ex_kw0 /\
+  nodef_on (list string) ex_defs_mem ex_kw0 (qnames ex_l2 ++ qnames ex_r2) /\
   qval ex_env false ex_l2 = Some (-2) /\ qval ex_env false ex_r2 = Some 3 /\
-  (Nat.max (qdepth ex_l2) (qdepth ex_r2) + 34 < 60)%nat /\
-  exists buf,
+  (exists buf,
     g_flatten (list string) ex_defs_mem ex_id (fun _ _ _ => None) (fun _ _ _ => None) 60
       (PNode "Comparator" "<=" [qnode ex_l2; qnode ex_r2]) None ex_kw0 = Some (RBuf buf, None) /\
-    buf_value ex_vars buf = Some true.
+    buf_value ex_vars buf = Some true) /\
+  (exists buf,
+    g_flatten (list string) ex_defs_mem ex_id (fun _ _ _ => None) (fun _ _ _ => None) 60
+      (PNode "Comparator" "=" [qnode ex_l2; qnode ex_r2]) None ex_kw0 = Some (RBuf buf, None) /\
+    buf_value ex_vars buf = Some false).
 Proof.
-  split; [intros n; reflexivity|]. split; [|split; [|split; [|split]]].
-  - cbv zeta. repeat split; vm_compute; reflexivity.
-  - vm_compute. reflexivity.
-  - vm_compute. reflexivity.
-  - vm_compute. lia.
-  - set (F := g_flatten _ _ _ _ _ _ _ _ _).
-    assert (H : match F with
-                | Some (RBuf buf, None) => buf_value ex_vars buf
-                | _ => None
-                end = Some true) by (vm_compute; reflexivity).
-    destruct F as [[[b|l|buf|p] [m|]]|]; try discriminate.
-    exists buf. split; [reflexivity|exact H].
+  assert (ND : nodef_on (list string) ex_defs_mem ex_kw0 (qnames ex_l2 ++ qnames ex_r2)).
+  { intros n I. cbn in I. destruct I as [<-|[<-|[]]]; reflexivity. }
+  assert (TOT : forall op o, cmp_of_string op = Some o -> exists buf,
+    g_flatten (list string) ex_defs_mem ex_id (fun _ _ _ => None) (fun _ _ _ => None) 60
+      (PNode "Comparator" op [qnode ex_l2; qnode ex_r2]) None ex_kw0 = Some (RBuf buf, None) /\
+    buf_value ex_vars buf = Some (sem_cmp o (-2) 3)).
+  { intros op o Ho.
+    apply (C06_translated_comparison_total (list string) ex_defs_mem ex_id _ _ ex_t ex_vars ex_env
+             op o ex_l2 ex_r2 (ex_anode ex_l2) (ex_anode ex_r2) ex_kw0 60%nat (-2) 3);
+      try (vm_compute; reflexivity); auto using C06_ex_encodes.
+    vm_compute. lia. }
+  split; [|split; [exact ND|split; [vm_compute; reflexivity|split; [vm_compute; reflexivity|split]]]].
+  - intros H. specialize (H "Foo"%string). vm_compute in H. discriminate.
+  - exact (TOT "<="%string CLe eq_refl).
+  - exact (TOT "="%string CEq eq_refl).
+Qed.
+
+(* a formula of Leaf.bexp through C06_translated_formula_total: declarations
+   a in 0..5 (a_0 a_1 a_2, constant sign bit), b in -3..4 (signed, 4 bits),
+   p Boolean; the formula
+       ((a / b <= 0 - 1) /\ p) ^ (a' % 3 = 1)
+   at a = 5, b = -3, p = TRUE, a' = 4 (value FALSE) and, with p = FALSE,
+   value TRUE.  [bok], [encodes], [encodes_bool], [bsem] are established and
+   the theorem is applied. *)
+Definition exb_t : PyStr.table :=
+  [("a"%string, mkHint "int" (Some ["a_0"; "a_1"; "a_2"]%string) (Some false) (Some (0, 5)));
+   ("b"%string, mkHint "int" (Some ["b_0"; "b_1"; "b_2"; "b_3"]%string) (Some true) (Some (-3, 4)));
+   ("p"%string, mkHint "bool" None None None)].
+Definition exb_id (s : string) : nat :=
+  ex_idx s ["a_0"; "a_1"; "a_2"; "b_0"; "b_1"; "b_2"; "b_3"; "p";
+            "a_0'"; "a_1'"; "a_2'"; "b_0'"; "b_1'"; "b_2'"; "b_3'"; "p'"]%string 0.
+(* a = 5, b = -3, p, a' = 4, b' = 2 *)
+Definition exb_vars (pv : bool) (n : nat) : bool :=
+  existsb (Nat.eqb n) [0; 2; 3; 5; 6; 10; 12]%nat || (Nat.eqb n 7 && pv).
+Definition exb_env (n : string) (p : bool) : Z :=
+  if String.eqb n "a" then (if p then 4 else 5)
+  else if String.eqb n "b" then (if p then 2 else -3) else 0.
+(* Boolean variables (and the bits of the integers, which flatten also
+   accepts as Boolean variables) have the value of their bit *)
+Definition exb_benv (pv : bool) (n : string) : bool := exb_vars pv (exb_id n).
+Definition exb_kw : kwargs (list string) := mkKw None (Some exb_t) (Some ["Foo"%string]).
+Definition exb_f : bexp :=
+  BBin "^" (BBin "/\" (BCmp "<=" (QArith ADiv "/" (QVar "a") (QVar "b"))
+                                 (QArith ASub "-" (QNum "0") (QNum "1")))
+                      (BVar "p"))
+           (BCmp "=" (QArith AMod "%" (QPrime "'" (QVar "a")) (QNum "3")) (QNum "1")).
+
+Example C06_exb_encodes : forall pv, encodes exb_id (exb_vars pv) exb_t exb_env.
+Proof.
+  intros pv name prime bits H.
+  enc_key name prime H "a"%string. enc_key name prime H "b"%string.
+  destruct (String.eqb_spec name "p") as [->|?]; [destruct prime; vm_compute in H; discriminate|].
+  unfold d_var_flatten, is_bool_var in H. cbn [exb_t dict_get] in H.
+  repeat match goal with N : name <> _ |- _ => apply String.eqb_neq in N; rewrite N in H end.
+  enc_rsplit name H "a"%string. enc_rsplit name H "b"%string. enc_rsplit name H "p"%string.
+  discriminate.
+Qed.
+
+Example C06_exb_encodes_bool : forall pv,
+  encodes_bool exb_id (exb_vars pv) exb_t (exb_benv pv).
+Proof.
+  intros pv name gb H. unfold exb_benv.
+  destruct (String.eqb_spec name "1") as [->|N1]; [vm_compute in H; discriminate|].
+  destruct (String.eqb_spec name "0") as [->|N0]; [vm_compute in H; discriminate|].
+  unfold d_var_flatten in H. destruct (is_bool_var exb_t name) as [[|]|]; try discriminate.
+  - rewrite append_nil_r in H. unfold py_token in H.
+    apply String.eqb_neq in N1, N0. rewrite N1, N0 in H.
+    destruct (String.eqb name "" || has_blank name)%bool; [discriminate|].
+    injection H as <-. reflexivity.
+  - destruct (dict_get exb_t name); [|discriminate]. destruct (var_names h); [|discriminate].
+    destruct (py_mapM (prime_name false) l); [|discriminate].
+    destruct (py_mapM (py_token exb_id) l0); discriminate.
+Qed.
+
+Example C06_formula_total_nonvacuous :
+  bok exb_id exb_t exb_f /\
+  nodef_on (list string) ex_defs_mem exb_kw (bnames exb_f) /\
+  bsem exb_env (exb_benv true) exb_f = Some false /\
+  bsem exb_env (exb_benv false) exb_f = Some true /\
+  (forall pv v, bsem exb_env (exb_benv pv) exb_f = Some v ->
+     exists r p,
+       g_flatten (list string) ex_defs_mem exb_id (fun _ _ _ => None) (fun _ _ _ => None) 60
+         (bnode exb_f) None exb_kw = Some (r, None) /\
+       px_of_fres r = Some p /\ eval_px (exb_vars pv) p = Some v).
+Proof.
+  assert (BK : bok exb_id exb_t exb_f).
+  { cbn [bok exb_f]. repeat split.
+    - eexists; vm_compute; reflexivity.
+    - eexists; vm_compute; reflexivity.
+    - do 3 eexists. repeat split; vm_compute; reflexivity.
+    - eexists; vm_compute; reflexivity.
+    - do 3 eexists. repeat split; vm_compute; reflexivity. }
+  assert (ND : nodef_on (list string) ex_defs_mem exb_kw (bnames exb_f)).
+  { intros n I. cbn in I. repeat (destruct I as [<-|I]; [reflexivity|]). destruct I. }
+  split; [exact BK|split; [exact ND|split; [vm_compute; reflexivity|split; [vm_compute; reflexivity|]]]].
+  intros pv v S.
+  apply (C06_translated_formula_total (list string) ex_defs_mem exb_id _ _ exb_t (exb_vars pv)
+           exb_env (exb_benv pv) exb_f exb_kw 60%nat v); auto using C06_exb_encodes, C06_exb_encodes_bool.
+  vm_compute. lia.
 Qed.
 
 Print Assumptions C06_adder_exact.
@@ -1088,3 +1211,6 @@ Print Assumptions C06_translated_formula_total.
 Print Assumptions C06_memory_threading_sound.
 Print Assumptions C06_translated_comparator_flatten_correct.
 Print Assumptions C06_translated_flatten_threads_memory.
+Print Assumptions C06_end_to_end_nonvacuous.
+Print Assumptions C06_total_nonvacuous.
+Print Assumptions C06_formula_total_nonvacuous.
